@@ -45,6 +45,7 @@ pub struct St {
     pub write_plan: VecDeque<usize>,      // per write call: max bytes accepted (0 = one WouldBlock)
     pub write_cycle: Vec<usize>,          // used (cyclically) once write_plan is exhausted
     pub fail_write_at: Option<u64>,       // the k-th write call (1-based) fails with EPIPE
+    pub err_kind: usize,                  // which io::ErrorKind injected errors carry (0 = the usual ones)
     pub nreads: u64,
     pub nwrites: u64,
     pub dropped: bool,
@@ -84,6 +85,7 @@ pub fn pair() -> (Net, MockStream) {
         write_plan: VecDeque::new(),
         write_cycle: Vec::new(),
         fail_write_at: None,
+        err_kind: 0,
         nreads: 0,
         nwrites: 0,
         dropped: false,
@@ -276,7 +278,7 @@ impl Read for MockStream {
         if limit == 0 {
             let res: io::Result<usize> = match Net::fault_now(&s) {
                 Some(Fault::Eof) => Ok(0),
-                Some(Fault::Reset) => Err(io::ErrorKind::ConnectionReset.into()),
+                Some(Fault::Reset) => Err(hard_error(s.err_kind, io::ErrorKind::ConnectionReset).into()),
                 None => Err(io::ErrorKind::WouldBlock.into()),
             };
             if s.log_io {
@@ -294,6 +296,19 @@ impl Read for MockStream {
         }
         net.update(&s);
         Ok(limit)
+    }
+}
+
+/// The kind of an injected hard (non-retryable) I/O error: `usual` by default, otherwise one of the
+/// other kinds a transport can report (never WouldBlock or Interrupted, which mean "try again").
+fn hard_error(sel: usize, usual: io::ErrorKind) -> io::ErrorKind {
+    match sel % 6 {
+        0 => usual,
+        1 => io::ErrorKind::ConnectionAborted,
+        2 => io::ErrorKind::Other,
+        3 => io::ErrorKind::TimedOut,
+        4 => io::ErrorKind::ConnectionReset,
+        _ => io::ErrorKind::BrokenPipe,
     }
 }
 
@@ -316,7 +331,7 @@ impl Write for MockStream {
                 if s.log_io {
                     gev(json!({"ev":"write","res":"error","offered":buf.len()}));
                 }
-                return Err(io::ErrorKind::BrokenPipe.into());
+                return Err(hard_error(s.err_kind, io::ErrorKind::BrokenPipe).into());
             }
             let mut plan = s.write_plan.pop_front();
             if plan.is_none() && !s.write_cycle.is_empty() && s.budget != Some(0) {
